@@ -56,7 +56,9 @@ CHECKS = {
     "C12/redraw": "at every wait of the loop the last draw shows the current application state",
     "C12/exit": "ExitMainLoop ends run() normally; any other exception leaves run() as the same object",
     "C12/display-stopped": "after run() the screen is stopped (start/stop paired, started == False)",
-    "C12/terminal-modes": "pty: buffer, cursor, mouse, paste, focus modes, termios and signal handlers as before",
+    "C12/terminal-modes": "pty: normal buffer, cursor visible, mouse/bracketed-paste/focus reporting off after run()",
+    "C12/tty-settings": "pty: termios.tcgetattr after run() equals before",
+    "C12/signal-handlers": "pty: SIGWINCH/SIGCONT/SIGTSTP handlers after run() are the ones installed before",
 }
 
 
@@ -962,21 +964,28 @@ def judge(case, res):
     why = "" if ok else "start/stop calls %r, screen.started after run() = %r" % (ss, res.get("started_after"))
     out["C12/display-stopped"] = (ok, why, True)
 
-    # ---- terminal modes (pty only)
+    # ---- terminal state (pty only): escape-sequence modes, tty settings, signal handlers
     if case["screen"] == "pty":
+        mid = res.get("modes_mid") or {}
+        nontrivial = bool(mid.get("alternate_buffer"))
         probs = []
         if res.get("modes_after") != M.INITIAL_SUMMARY:
-            probs.append("modes after run(): %r" % (res.get("modes_after"),))
-        if res.get("termios_after") != res.get("termios_before"):
-            probs.append("termios changed: before %r after %r" % (res.get("termios_before"), res.get("termios_after")))
-        if not all(res.get("sig_same", [False])):
-            probs.append(
-                "signal handlers %s: before %r after %r" % ("/".join(SIGS), res.get("sig_before"), res.get("sig_after"))
-            )
+            probs.append("modes decoded from the bytes written to the terminal, after run(): %r" % (res.get("modes_after"),))
         if res.get("flush_error"):
             probs.append("output flush failed: %s" % res["flush_error"])
-        mid = res.get("modes_mid") or {}
-        out["C12/terminal-modes"] = (not probs, "; ".join(probs), bool(mid.get("alternate_buffer")))
+        out["C12/terminal-modes"] = (not probs, "; ".join(probs), nontrivial)
+        ok = res.get("termios_after") == res.get("termios_before") and isinstance(res.get("termios_before"), list)
+        why = ""
+        if not ok:
+            why = "tcgetattr differs: before %r after %r%s" % (
+                res.get("termios_before"),
+                res.get("termios_after"),
+                "" if res.get("input_fd_open_after", True) else " (and the tty input descriptor was closed during run())",
+            )
+        out["C12/tty-settings"] = (ok, why, nontrivial)
+        ok = all(res.get("sig_same", [False]))
+        why = "" if ok else "handlers of %s: before %r after %r" % ("/".join(SIGS), res.get("sig_before"), res.get("sig_after"))
+        out["C12/signal-handlers"] = (ok, why, nontrivial)
     return out
 
 
@@ -1052,11 +1061,15 @@ def injections(max_idx=6, excs=EXCS):
 
 
 def build_cases(tier, seed):
+    """quick: every (kind, index<=6) for every loop x pop_ups with the exception type rotating, all three
+    exception types for select/asyncio; thorough: the full grid for every loop, more session shapes."""
     loops = available_loops()
     r = rng(seed)
+    quick = tier == "quick"
     cases = []
-    orders = ["KMTPRL", "LRPTMK"] if tier == "quick" else ["KMTPRL", "LRPTMK", "OTKPMR", "TTPPKO", "ZKRMOL", "MOPKTZ"]
-    n_random = 3 if tier == "quick" else 12
+    orders = ["KMTPRL", "LRPTMK"] if quick else ["KMTPRL", "LRPTMK", "OTKPMR", "TTPPKO", "ZKRMOL", "MOPKTZ"]
+    n_random = 3 if quick else 12
+    core = ("select", "asyncio")
 
     def add(screen, loop, pop, session, inject, pty=None):
         c = {"screen": screen, "loop": loop, "pop_ups": pop, "session": session, "inject": inject}
@@ -1064,19 +1077,28 @@ def build_cases(tier, seed):
             c["pty"] = pty
         cases.append(c)
 
+    def grid(full, salt):
+        if full:
+            return injections()
+        return [
+            {"kind": k, "idx": i, "exc": EXCS[(ki + i + salt) % len(EXCS)]}
+            for ki, k in enumerate(KINDS)
+            for i in range(7)
+        ]
+
     # (a) fake screen with external event-loop support: every loop x pop_ups x injection grid
-    for loop in loops:
+    for li, loop in enumerate(loops):
         for pop in (False, True):
             for oi, order in enumerate(orders):
                 sess = make_session(order)
                 add("fake_hook", loop, pop, sess, None)
-                if oi == 0 or (tier != "quick" and oi < 3):
-                    for inj in injections():
+                if oi == 0 or (not quick and oi < 3):
+                    for inj in grid(not quick or loop in core, li + int(pop)):
                         add("fake_hook", loop, pop, sess, inj)
             for _ in range(n_random):
-                sess = random_session(r, 14 if tier == "quick" else 24)
+                sess = random_session(r, 14 if quick else 24)
                 add("fake_hook", loop, pop, sess, None)
-                if tier != "quick":
+                if not quick:
                     for inj in injections(3, ("exc",)):
                         add("fake_hook", loop, pop, sess, inj)
     # (a') fake screen without external event-loop support (MainLoop's own SelectEventLoop, get_input)
@@ -1084,26 +1106,24 @@ def build_cases(tier, seed):
         for oi, order in enumerate(orders):
             sess = make_session(order, pipes=False)
             add("fake_nohook", "select", pop, sess, None)
-            for inj in injections():
-                if inj["kind"] != "pipe":
-                    add("fake_nohook", "select", pop, sess, inj)
+            if oi == 0 or not quick:
+                for inj in injections():
+                    if inj["kind"] != "pipe":
+                        add("fake_nohook", "select", pop, sess, inj)
         for _ in range(n_random):
             add("fake_nohook", "select", pop, random_session(r, 14, pipes=False), None)
-    # (b) the real raw_display.Screen on a pty
+    # (b) the real raw_display.Screen on a pty; terminal configuration and pop_ups rotate through the grid
     n = 0
-    for loop in loops:
+    for li, loop in enumerate(loops):
         for ci, cfg in enumerate(PTY_CFGS):
             for pop in (False, True):
                 add("pty", loop, pop, make_session(orders[ci % len(orders)]), None, cfg)
-        pty_orders = orders[:1] if tier == "quick" else orders[:3]
-        for order in pty_orders:
+        for order in orders[:1] if quick else orders[:3]:
             sess = make_session(order)
-            for inj in injections():
+            for inj in grid(not quick or loop in core, li):
                 cfg = PTY_CFGS[n % len(PTY_CFGS)]
                 pop = (n // len(PTY_CFGS)) % 2 == 1
                 n += 1
-                if tier == "quick" and loop not in ("select", "asyncio") and inj["idx"] not in (0, 1, 6):
-                    continue
                 add("pty", loop, pop, sess, inj, cfg)
         for _ in range(n_random):
             add("pty", loop, bool(n % 2), random_session(r, 12), None, PTY_CFGS[n % len(PTY_CFGS)])
@@ -1147,14 +1167,27 @@ def run(tier="quick", seed=0) -> dict:
         )
     )
     checks = {name: Check(name, rule, exhaustive=True, bound=bound) for name, rule in CHECKS.items()}
-    for case, res in zip(cases, results):
-        verdicts = judge(case, res)
+    judged = [(case, res, judge(case, res)) for case, res in zip(cases, results)]
+    # Check keeps the first 20 failures: feed one representative of each (check, screen, loop, kind, exception)
+    # family first so that distinct defects are all visible in the report
+    seen, first, rest = set(), [], []
+    for item in judged:
+        case, _res, verdicts = item
+        inj = case.get("inject") or {}
+        fam = {(n, case["screen"], case["loop"], inj.get("kind"), inj.get("exc")) for n, v in verdicts.items() if not v[0]}
+        if fam - seen:
+            seen |= fam
+            first.append(item)
+        else:
+            rest.append(item)
+    first.sort(key=lambda it: (it[0]["loop"] in ("select", "asyncio"), (it[0].get("inject") or {}).get("idx", 0)))
+    for case, res, verdicts in first + rest:
         key = _case_key(case)
         for name, (ok, why, nontrivial) in verdicts.items():
             detail = None
             if not ok:
                 detail = {"why": why, "case": case, "how": "bounded.C12.replay(%r, detail['case'])" % name}
-                for f in ("outcome", "exc_repr", "hung", "sig_before", "sig_after", "modes_after", "out_tail"):
+                for f in ("outcome", "exc_repr", "hung", "input_fd_open_after"):
                     if res.get(f) is not None:
                         detail[f] = res[f]
             checks[name].case(key, ok, detail, nontrivial, _sample(case, res))
